@@ -83,7 +83,33 @@ def survey_h(case, variant):
     return sv
 
 
-def run(ctx, cases, algs=(None,), variants=(0, 1, 2), heights=False):
+T3 = {"dir": "direction", "dist": "distance", "sd": "s-distance", "za": "z-angle", "dh": "dh", "vec": "vector"}
+
+
+def survey_3d(case, variant):
+    """Acord3D.tla: nothing but the fixed points is given"""
+    k = sum(o["from"] * 7 + o["to"] for o in case["obs"]) + len(case["obs"])
+    axes, lh = AXES[(k + variant) % len(AXES)]
+    known = case["fixed"] + case["built"]
+    pts = [{"id": "P%d" % i, "e": 1000 + 100 * case["pts"][i - 1]["e"], "n": 2000 + 100 * case["pts"][i - 1]["n"], "u": case["pts"][i - 1]["u"],
+            "role": "fix" if i in case["fixed"] else "unk"} for i in sorted(known)]
+    obs = [{"t": T3[o["t"]], "from": "P%d" % o["from"], "to": "P%d" % o["to"], "to2": ""} for o in case["obs"]]
+    net = {"t": "acord3d", "dim": 3, "pts": pts, "obs": obs, "axes": axes, "lefthanded": lh, "noise": 0, "orient": 137531 + 9173 * (k % 37)}
+    sv = session.Survey(net)
+    for p in sv.pts:
+        if p["role"] != "fix":
+            p["approx"] = "omit"
+    n = len(case["pts"])
+    if variant == 1:
+        sv.names = {"P%d" % i: "Q%d" % (n + 1 - i) for i in sorted(known)}
+        sv.order_seed = 1000 + k
+    elif variant == 2:
+        sv.names = {"P%d" % i: ("Z%d" % i if i in case["fixed"] else "A%d" % (n + 1 - i)) for i in sorted(known)}
+        sv.order_seed = 2000 + k
+    return sv
+
+
+def run(ctx, cases, algs=(None,), variants=(0, 1, 2), heights=False, spatial=False):
     vlib.build("plain", ["gama-local"])
     jobs, meta = [], []
     for ci, c in enumerate(cases):
@@ -91,22 +117,31 @@ def run(ctx, cases, algs=(None,), variants=(0, 1, 2), heights=False):
         if heights and all(o["t"] == "vec" for o in c["obs"]):
             vs = tuple(variants) + (3,)
         for v in vs:
-            sv = survey_h(c, v) if heights else survey(c, v)
+            sv = survey_3d(c, v) if spatial else survey_h(c, v) if heights else survey(c, v)
             for alg in algs:
                 args = sv.cli() + (["--algorithm", alg] if alg else [])
                 jobs.append({"gkf": sv.gkf(), "args": args, "want": ["xml"]})
                 meta.append((ci, v, alg, sv))
     runs = gl.run_many(ctx, jobs)
     st = {"runs": len(jobs), "adjusted": 0, "points_checked": 0, "by_construction": {}}
+    failures, failed = [], set()
     for (ci, v, alg, sv), run, job in zip(meta, runs, jobs):
         c = cases[ci]
         kinds = "+".join(c["hist"][:len(c["hist"]) - c["extra"]])
-        tag = "%s|%s%s" % ("acordh" if heights else "acord", kinds, "|extra" if c["extra"] else "")
+        if c.get("travpts"):
+            # an interior point of an inserted traverse that is also tied to other points (more than its two traverse neighbours)
+            nb = {}
+            for o in c["obs"]:
+                for a_, b_ in ((o["from"], o["to"]), (o["to"], o["from"])) + (((o["from"], o["to2"]), (o["to2"], o["from"])) if o.get("to2") else ()):
+                    nb.setdefault(a_, set()).add(b_)
+            if any(len(nb.get(p_, ())) > 2 for p_ in c["travpts"]):
+                kinds = kinds.replace("trav", "travx")
+        tag = "%s|%s%s" % ("acord3d" if spatial else "acordh" if heights else "acord", kinds, "|extra" if c["extra"] else "")
         st["by_construction"][kinds] = st["by_construction"].get(kinds, 0) + 1
 
-        def report(chk, msg, job=job, tag=tag, c=c, v=v):
-            ctx.violation("%s|%s" % (chk, tag), "variant %d, constructions %s, fixed %s: %s" % (v, c["hist"], c["fixed"], msg),
-                          replay={"gkf": job["gkf"], "args": job["args"], "case": c})
+        def report(chk, msg, job=job, tag=tag, c=c, v=v, ci=ci, alg=alg):
+            failures.append((ci, alg, v, chk, tag, msg, job, c))
+            failed.add((ci, alg, v))
         cls = gl.classify(run)
         if cls in ("crash", "sanitizer", "hang"):
             report("run_" + cls, run.out[-800:])
@@ -118,4 +153,10 @@ def run(ctx, cases, algs=(None,), variants=(0, 1, 2), heights=False):
         P = session.project(run.res, sv)
         st["points_checked"] += len(c["built"])
         session.check_truth(P, sv, report)
+    for (ci, alg, v, chk, tag, msg, job, c) in failures:
+        # the same network written in construction order is solved: the failure is one of document order / point names
+        od = v != 0 and (ci, alg, 0) not in failed
+        ctx.violation("%s%s|%s" % ("order_dependent|" if od else "", chk, tag),
+                      "variant %d%s, constructions %s, fixed %s: %s" % (v, " (variant 0 of the same network is solved)" if od else "", c["hist"], c["fixed"], msg),
+                      replay={"gkf": job["gkf"], "args": job["args"], "case": c})
     return st
